@@ -127,7 +127,13 @@ class Filter(collections.namedtuple('Filter', ['property', 'op', 'value'])):
                         if isinstance(v, datetime) else v
                         for v in filter_value
                     )
-                    if all(isinstance(v, datetime) for v in values):
+                    if self.op == "in":
+                        # only the timestamps among the values can be equal
+                        # to this one
+                        values = tuple(
+                            v for v in values if isinstance(v, datetime)
+                        )
+                    if values and all(isinstance(v, datetime) for v in values):
                         stix_obj_property, filter_value = obj_timestamp, values
                 else:
                     value = filter_value
